@@ -1041,7 +1041,7 @@ func c17Run(c *core.Ctx) {
 }
 
 func c17Replay(c *core.Ctx, payload json.RawMessage) {
-	if c17NestedReplay(c, payload) {
+	if c17NestedReplay(c, payload) || c17TwinsReplay(c, payload) {
 		return
 	}
 	var fam struct {
